@@ -140,6 +140,10 @@ RCP<const Basic> pow(const RCP<const Basic> &a, const RCP<const Basic> &b)
                 }
             } else if (is_a<Complex>(*b)
                        and down_cast<const Number &>(*a).is_exact()) {
+                if (down_cast<const Number &>(*a).is_one()) {
+                    // 1**(p + q*I) = 1 (Pow::is_canonical rejects base 1)
+                    return one;
+                }
                 return make_rcp<const Pow>(a, b);
             } else {
                 return down_cast<const Number &>(*a).pow(
